@@ -62,7 +62,8 @@ def guard(fn):
     def run(ctx):
         try:
             return fn(ctx)
-        except (ModelError,) as e:
+        except (ModelError, ShapeError) as e:
+            # (a shape error here means the fixture of an obligation on an INTERNAL function no longer fits that function's interface)
             return [Clause(cname, "undecided", "", "%s: %s" % (type(e).__name__, e))]
         except PathsExceeded:
             return [Clause(cname, "undecided", "", "engine limit: more execution paths than the exploration budget")]
